@@ -1446,7 +1446,15 @@ def _build_result(pb, penalty, success, status, n_iter, options):
     Build the result of the optimization process.
     """
     # Build the result.
-    x, fun, maxcv = pb.best_eval(penalty)
+    try:
+        x, fun, maxcv = pb.best_eval(penalty)
+    except CallbackSuccess:
+        # No evaluation had been made yet (infeasible bounds, all variables
+        # fixed) and the callback asked to stop at the one made by best_eval.
+        # The filter is updated before the callback is called.
+        x, fun, maxcv = pb.best_eval(penalty)
+        success = True
+        status = ExitStatus.CALLBACK_SUCCESS
     success = success and np.isfinite(fun) and np.isfinite(maxcv)
     if status not in [ExitStatus.TARGET_SUCCESS, ExitStatus.FEASIBLE_SUCCESS]:
         success = success and maxcv <= options[Options.FEASIBILITY_TOL]
